@@ -154,3 +154,14 @@ OK.update({
     'n_expr300': (False, [_expr_program(300)]),
     'n_expr80_here': (False, ["  ;$ " + "+ 2*w " * 80 + "\n"]),
 })
+
+
+# deep nesting inside a MACRO BODY: the parser validates the labels of a macro body recursively over the expression
+# tree, i.e. in the PARSING stage - before the macro-resolve stage has set the recursion limit of the call. These are
+# the probes that notice a limit leaked by an EARLIER call (300 deep assembles in a fresh process, 600 deep does not)
+def _macro_deep(depth):
+    return "def m a {\n  ;" + "a+(" * depth + "a" + ")" * depth + "\n}\nm 0\n"
+
+
+OK.update({'n_mdeep300': (False, [_macro_deep(300)])})
+FAIL.update({'f_mdeep600': (False, [_macro_deep(600)])})
